@@ -26,6 +26,7 @@ structure RState where
   reissued : List Nat := []            -- snapshot epochs written over an existing (torn) file of that epoch
   everComplete : Bool := false         -- a snapshot Persist returned nil in this chain
   pendingAsync : Nat := 0              -- failed persists whose asynchronous error has not been seen yet
+  maybeAsync : Nat := 0                -- failures reported while the writer was closing: the error may have been ErrClosed (no asynchronous error) or not
   asyncSeen : Nat := 0
   expectNack : List Nat := []          -- safe batches the model says received the error, not yet observed
   faultOn : Bool := false              -- C14: a directory fault is armed
@@ -243,12 +244,14 @@ def stepLine1 (r : RState) (op impl : String) : RState × String :=
           match crashTo r.d.s sn sg with
           | none => ({ r with d := { r.d with sync := false } }, answer "REJECT:crash-not-possible-in-the-model" "ok" [])
           | some s' =>
-              ({ r with d := { r.d with s := s', commits := [] }, pendingAsync := 0, asyncSeen := 0, expectNack := [], faultOn := false, needCover := none, crashed := true },
+              ({ r with d := { r.d with s := s', commits := [] }, pendingAsync := 0, maybeAsync := 0, asyncSeen := 0, expectNack := [], faultOn := false, needCover := none, crashed := true },
                answer (showState s') "ok" ["crash", s!"crash-snap-{snap}"] )
       | _, _ => (r, answer "bad-op" "na" [])
   | ["asyncerr", "persister"] =>
       if !r.d.sync then (r, answer impl "na" ["desync"]) else
-      if r.pendingAsync == 0 then (r, answer "REJECT:async-error-without-failed-persist" "ok" [])
+      if r.pendingAsync == 0 && r.maybeAsync > 0 then
+        ({ r with maybeAsync := r.maybeAsync - 1, asyncSeen := r.asyncSeen + 1 }, answer (showState r.d.s) "ok" ["asyncerr-persister", "asyncerr-while-closing"])
+      else if r.pendingAsync == 0 then (r, answer "REJECT:async-error-without-failed-persist" "ok" [])
       else ({ r with pendingAsync := r.pendingAsync - 1, asyncSeen := r.asyncSeen + 1 }, answer (showState r.d.s) "ok" ["asyncerr-persister"])
   | ["asyncerr", "merger"] =>
       if !r.d.sync then (r, answer impl "na" ["desync"]) else
@@ -349,7 +352,8 @@ def stepLine1 (r : RState) (op impl : String) : RState × String :=
           -- what the persister must SAY now (`Bluge.Persist.observe`): the error to every safe batch of the failed grab,
           -- the asynchronous error unless the writer is closing
           let o := observe pre (.persistFail (cl == "1"))
-          ({ r with pendingAsync := if o.asyncErr then r.pendingAsync + 1 else r.pendingAsync, expectNack := r.expectNack ++ o.errTo,
+          ({ r with pendingAsync := if o.asyncErr then r.pendingAsync + 1 else r.pendingAsync,
+                    maybeAsync := if o.asyncErr then r.maybeAsync else r.maybeAsync + 1, expectNack := r.expectNack ++ o.errTo,
                     mustCover := max r.mustCover pre.applied }, a)
       | ["ack", _] =>
           -- C14 (retry_covers): the acknowledgement that follows a failed persist covers everything applied when the
@@ -360,7 +364,7 @@ def stepLine1 (r : RState) (op impl : String) : RState × String :=
                else if j.k ≥ r.mustCover then ({ r with floorK := max r.floorK r.mustCover, mustCover := 0 }, addBr a "ack-after-failure-covers")
                else ({ r with mustCover := 0 }, setAns a (ansResult a) s!"bad:retry-does-not-cover acknowledged-content={j.k} applied-at-failure={r.mustCover}")
            | none => (r, a))
-      | ["opened", _] => ({ r with pendingAsync := 0, expectNack := [], mustCover := 0 }, a)
+      | ["opened", _] => ({ r with pendingAsync := 0, maybeAsync := 0, expectNack := [], mustCover := 0 }, a)
       | _ => (r, a)
 
 /-- `OpenWriter` is ONE event of the model but several records of the run: `open` (Lock succeeded), then `loadfail e` for
